@@ -3,18 +3,20 @@
    times in milliseconds) and of addrquota.Quota (real time) against the abstract sliding
    window, the Exceeded rule and the bucket rule.  Runs are separated by "reset" lines.
 
-   {"ev":"reset","kind":"counter","w":W}            {"ev":"add","t":t,"n":n,"sum":s,"cap":c}
-   {"ev":"reset","kind":"limiter","w":W,"pps":p,"bps":b}   (0 = dimension off)
+   {"ev":"reset","kind":"counter","w":W,"ups":u}    {"ev":"add","t":t,"n":n,"sum":s,"cap":c}
+        (times and W in units of which u make a second: 1000 = ms, 1000000 = us)
+   {"ev":"reset","kind":"limiter","w":W,"ups":u,"pps":p,"bps":b}   (0 = dimension off)
                                                     {"ev":"acct","t":t,"bytes":n,"ok":bool}
-   {"ev":"reset","kind":"quota","eps_milli":e,"burst":b}
+   {"ev":"reset","kind":"quota","eps_milli":e,"burst":b,"conc":bool}   (conc: calls overlap)
                                                     {"ev":"q","ip":[codes],"blocked":bool,"t0":ms,"t1":ms}
    {"ev":"key","a":[codes],"b":[codes],"ka":bool,"kb":bool,"same":bool}   ipKey non-empty / equal
 
    An event exactly W old may or may not count (either boundary reading is accepted).
    The quota bound is one-sided: allowed <= burst + rate * elapsed, with elapsed measured
    around the calls (t0 before the bucket's first call, t1 after this one) and half an
-   event of slack; a bucket's first event is allowed (burst >= 1).  Texts that are no IP
-   address are not constrained. *)
+   event of slack, elapsed = latest end - earliest start seen for the bucket (sound also
+   when calls overlap and are logged out of order); in sequential runs a bucket's first
+   event is allowed (burst >= 1).  Texts that are no IP address are not constrained. *)
 EXTENDS RateLimit, IPText, TraceLib
 
 B == INSTANCE Bucket WITH a <- 0, b <- 0
@@ -22,7 +24,7 @@ B == INSTANCE Bucket WITH a <- 0, b <- 0
 VARIABLES cfg,     \* the reset record of the current run
           pw, bw,  \* abstract windows: packets (or the counter's events), bytes
           lastT,
-          qb       \* quota: sequence of [k |-> bucket, first |-> ms, n |-> allowed so far]
+          qb       \* quota: sequence of [k |-> bucket, first |-> earliest start ms, last |-> latest end ms, n |-> allowed]
 
 tvars == <<cfg, pw, bw, lastT, qb>>
 
@@ -44,10 +46,10 @@ TAcct == /\ IsEv("acct") /\ cfg.kind = "limiter"
          /\ LET r == Rec
                 p2 == Keep(Append(pw, [t |-> r.t, n |-> 1]), r.t, cfg.w)
                 b2 == Keep(Append(bw, [t |-> r.t, n |-> r.bytes]), r.t, cfg.w)
-                okI == /\ ~(cfg.pps > 0 /\ Exceeded(SumIncl(p2, r.t, cfg.w), cfg.pps, cfg.w))
-                       /\ ~(cfg.bps > 0 /\ Exceeded(SumIncl(b2, r.t, cfg.w), cfg.bps, cfg.w))
-                okE == /\ ~(cfg.pps > 0 /\ Exceeded(SumExcl(p2, r.t, cfg.w), cfg.pps, cfg.w))
-                       /\ ~(cfg.bps > 0 /\ Exceeded(SumExcl(b2, r.t, cfg.w), cfg.bps, cfg.w))
+                okI == /\ ~(cfg.pps > 0 /\ Exceeded(SumIncl(p2, r.t, cfg.w), cfg.pps, cfg.w, cfg.ups))
+                       /\ ~(cfg.bps > 0 /\ Exceeded(SumIncl(b2, r.t, cfg.w), cfg.bps, cfg.w, cfg.ups))
+                okE == /\ ~(cfg.pps > 0 /\ Exceeded(SumExcl(p2, r.t, cfg.w), cfg.pps, cfg.w, cfg.ups))
+                       /\ ~(cfg.bps > 0 /\ Exceeded(SumExcl(b2, r.t, cfg.w), cfg.bps, cfg.w, cfg.ups))
             IN /\ r.t >= lastT
                /\ r.ok \in {okI, okE}
                /\ pw' = p2 /\ bw' = b2 /\ lastT' = r.t
@@ -63,13 +65,14 @@ TQuota == /\ IsEv("q") /\ cfg.kind = "quota"
                          I == {i \in 1..Len(qb) : qb[i].k = k}
                          fresh == I = {}
                          i == IF fresh THEN 0 ELSE CHOOSE x \in I : TRUE
-                         first == IF fresh THEN r.t0 ELSE qb[i].first
+                         first == IF fresh \/ r.t0 < qb[i].first THEN r.t0 ELSE qb[i].first
+                         last == IF fresh \/ r.t1 > qb[i].last THEN r.t1 ELSE qb[i].last
                          n == IF fresh THEN 0 ELSE qb[i].n
                          n2 == IF r.blocked THEN n ELSE n + 1
-                     IN /\ fresh => ~r.blocked
-                        /\ ~r.blocked => n2 * 1000 <= cfg.burst * 1000 + (cfg.eps_milli * (r.t1 - first)) \div 1000 + 500
-                        /\ qb' = IF fresh THEN Append(qb, [k |-> k, first |-> first, n |-> n2])
-                                 ELSE [qb EXCEPT ![i].n = n2]
+                     IN /\ (fresh /\ ~cfg.conc) => ~r.blocked
+                        /\ n2 * 1000 <= cfg.burst * 1000 + (cfg.eps_milli * (last - first)) \div 1000 + 500
+                        /\ qb' = IF fresh THEN Append(qb, [k |-> k, first |-> first, last |-> last, n |-> n2])
+                                 ELSE [qb EXCEPT ![i] = [k |-> k, first |-> first, last |-> last, n |-> n2]]
           /\ UNCHANGED <<cfg, pw, bw, lastT>>
 
 TKey == /\ IsEv("key")
